@@ -143,10 +143,14 @@ Section Agree.
       + intros [cs [H _]]; discriminate.
       + intros [o H]; discriminate.
       + intros [cs [H _]]; discriminate.
-    - destruct (str (c_name c) (c_args c)) as [cs [e|]|e|]; simpl; split;
-        try (intros [o H]; discriminate); try (intros [cs' [H _]]; discriminate).
-      + destruct cs; intros [o H]; [discriminate|]. exists (s :: cs). split; [reflexivity|discriminate].
-      + intros [cs' [H Hne]]. inversion H; subst. destruct cs'; [congruence|]. eauto.
+    - destruct (str (c_name c) (c_args c)) as [cs tl|e|]; simpl.
+      + destruct tl as [e|]; simpl.
+        * split; [intros [o H]; destruct cs; discriminate|intros [cs' [H _]]; discriminate].
+        * destruct cs as [|s cs]; simpl.
+          -- split; [intros [o H]; discriminate|]. intros [cs' [H Hne]]. inversion H; subst. congruence.
+          -- split; intros _; [exists (s :: cs); split; [reflexivity|discriminate]|eauto].
+      + split; [intros [o H]; discriminate|intros [cs' [H _]]; discriminate].
+      + split; [intros [o H]; discriminate|intros [cs' [H _]]; discriminate].
     - congruence.
     - destruct handler as [h|]; simpl.
       + destruct (h (c_name c) (c_args c)) as [o|e|]; simpl; split.
@@ -194,7 +198,7 @@ Section Agree.
         - simpl in F. inversion F as [|? ? [F1 F2] F']; subst. simpl in F1, F2.
           destruct IHA as [outs B]; auto. { intros c Hc. apply Hk. right; auto. }
           destruct y as [cs tl]. simpl in *. subst tl.
-          destruct (proj2 (derived_agree x (Hk x (or_introl eq_refl)))) as [o Ho]; eauto.
+          destruct (proj2 (derived_agree x (Hk x (or_introl eq_refl))) (ex_intro _ cs (conj H F2))) as [o Ho].
           exists (o :: outs). constructor; auto. }
       eexists. apply invoke_spec; eauto.
   Qed.
